@@ -9,6 +9,10 @@ use crate::PixelFormat;
 
 /// new-format chunk: entries first..=first+1, second entry carries a one-byte name
 fn new_palette(first: u32) {
+    new_palette_with(first, 1);
+}
+/// `named_flags`: the flag word of entry 1 (bit 0 = has name; concrete, it decides how many bytes the entry takes)
+fn new_palette_with(first: u32, named_flags: u16) {
     // 4 total, 4 first, 4 last, 8 reserved | e0: 2 flags + 4 rgba | e1: 2 flags(=1) + 4 rgba + name(2+1)
     let mut buf: [u8; 35] = kani::any();
     let last = first + 1;
@@ -20,8 +24,8 @@ fn new_palette(first: u32) {
     // every other flag bit and no name, entry 1 only the name bit
     buf[20] = 0xfe;
     buf[21] = 0xff;
-    buf[26] = 1;
-    buf[27] = 0;
+    buf[26] = named_flags as u8;
+    buf[27] = (named_flags >> 8) as u8;
     buf[32] = 1;
     buf[33] = 0;
     kani::assume(buf[34] < 0x80);
@@ -64,6 +68,17 @@ fn c11_q_new_palette_from_0() {
 #[kani::stub(std::collections::HashMap::len, crate::vklib::hm_len)]
 fn c11_t_new_palette_from_254() {
     new_palette(254);
+}
+/// the name flag is bit 0 of the flag word: an entry with other flag bits set as well still carries its name
+#[kani::proof]
+#[kani::unwind(8)]
+#[kani::stub(alloc::fmt::format, crate::vklib::empty_format)]
+#[kani::stub(std::collections::HashMap::insert, crate::vklib::hm_insert)]
+#[kani::stub(std::collections::HashMap::with_hasher, crate::vklib::hm_with_hasher)]
+#[kani::stub(crate::palette::ColorPalette::color, crate::vklib::side_color)]
+#[kani::stub(std::collections::HashMap::len, crate::vklib::hm_len)]
+fn c11_q_new_palette_named_entry_with_other_flag_bits() {
+    new_palette_with(0, 0x8003);
 }
 
 /// last < first is an error value
